@@ -23,8 +23,8 @@ import (
 
 func TestMain(m *testing.M) { pbt.Main(m) }
 
-const goroutines = 16
-const rounds = 3
+const goroutines = 8
+const rounds = 2
 
 // observe runs every read-only operation of the property on e.
 func observe(e error) string {
@@ -73,6 +73,20 @@ func draw(t *rapid.T) *pbt.Case {
 	gen.SprinkleRepeats(t, c.Spec)
 	if rapid.IntRange(0, 2).Draw(t, "repeated") == 0 {
 		c.Spec = gen.WithRepeatedAnnotations(t, g, c.Spec)
+	}
+	if rapid.Bool().Draw(t, "derived") {
+		// Construct the feature: an outermost layer of a kind whose
+		// observers compute something from the stored data on every call
+		// (redacted tags, safe details of a hidden error, printed stacks,
+		// joined keys) - where a lazily filled cache would sit. Every such
+		// kind is equally likely (the catalogue has grown past a hundred
+		// kinds, which made each of them rare by plain drawing).
+		k := rapid.SampledFrom([]string{"tags", "tags", "handled", "handledmsg", "secondary", "stack", "safedetails", "telemetry", "issuelink", "mark", "domain", "wrapf", "hint"}).Draw(t, "derivedkind")
+		w := g.WrapOf(t, k, c.Spec)
+		for j := range w.X {
+			w.X[j] = g.Draw(t, 3)
+		}
+		c.Spec = w
 	}
 	c.SetInt("decoded", rapid.IntRange(0, 1).Draw(t, "decoded"))
 	return c
